@@ -435,11 +435,32 @@ and in `Props/C16Text.lean`:
   * the character level: `lex_written_text` (lexing what the writer wrote), `printer_lexable_*` (the printer always
     separates its tokens), `C16_roundtrip_text_exec` / `_ts` / `_tsext`, `server_module_roundtrip_text` (cook, lex, parse).
 
+and in `Props/C16Own.lean` (nitrogql's OWN parser — C07's PEG model: generated grammar + builders — as the reader):
+  * `print_string_spec_escape` (where `print_string` writes C07's `specEscape` literal), `printed_exec_is_c07_rendering`
+    (the printed text of an executable document IS a rendering of C07: the printer's blanks, line feeds, commas and
+    indentation are a legal trivia assignment), `C16_roundtrip_own_parser_exec`;
+  * `printed_ts_is_c07_rendering_partial` (type-system documents without a list that takes a leading `&` / `|`),
+    `own_parser_reads_lead_renderings` (C07's document theorem extended to the renderings WITH the leading separators the
+    printer always writes), `printed_ts_is_own_rendering`, `C16_roundtrip_own_parser_ts` / `_tsext`;
+  * `server_module_roundtrip_own`: parse (cook (module)) = the checked schema without the stripped directives, over
+    nitrogql's own parser model.
+
 OPEN — carried by K/O only (never claimed as proved)
-  * the composition `parse (cook (serverModule …)) = stripDirective … d` over nitrogql's own parser (C07's PEG model)
-    instead of the specification's lexer and parser: O evaluates it on the real parser for generated schemas; K ties
-    every model in this file to the code.
-  * `#import` lines of executable documents (comments for GraphQL).
+  * over nitrogql's own parser, the documents OUTSIDE the explicit (decidable) side conditions of `Props/C16Own.lean`:
+      - strings that are not written as C07's `specEscape` literal (`strQ`): a string with a line feed that the printer
+        writes as a BLOCK string (C07's renderings have no block strings; finding t of C07: returned raw — for a
+        description inside a definition the round trip is FALSE over the own parser, the writer's indentation comes
+        back: `C16_roundtrip_own_parser_block_counterexample`), a string with a
+        control character other than CR / LF (the printer writes `\u{…}`, which C07's renderings never contain — the
+        parser model does read it back, evaluated on witnesses), a string with a double quote (written unescaped: open
+        finding, the text is rejected — `C16_roundtrip_own_parser_ts_counterexample`);
+      - a union extension without members (`extend union U @d =`, open finding; rejected — same counterexample);
+      - what C07's `WFDef` / `WFTsItem` / `NormalItem` exclude (invalid names, empty selection sets, the bare `interface I`,
+        an object type without fields and directives, …: see the OPEN block of `Props/C07.lean`);
+      - `#import` lines of executable documents (comments for GraphQL; not covered by C07 either).
+    For those O evaluates the property on the real parser for generated schemas and operations; K ties every model in
+    these files to the code. Over the SPECIFICATION's lexer and parser the block form and all control characters are
+    covered (`C16_roundtrip_text_*`).
 -/
 
 end NitroVerif.C16
